@@ -3,5 +3,5 @@
 d=$(mktemp -d /tmp/mutXXXXXX); cp -r /repo/src $d/src
 sed -i "$2" $d/src/rtflite/$1
 diff /repo/src/rtflite/$1 $d/src/rtflite/$1 | head -6
-cd /verif && .venv/bin/python /tmp/t2.py $3 $d $4 2>&1 | grep -v "^\[" | head -${5:-12}
+cd /verif && .venv/bin/python tools/probe.py $3 $d $4 2>&1 | grep -v "^\[" | head -${5:-12}
 rm -rf $d
